@@ -16,6 +16,7 @@ type Profile struct {
 	TopDefer   bool // defer at program level
 	ChainW     int  // weight of chain calls
 	LitW       int  // weight of container literals
+	Natural    bool // occasionally an expression the interpreter itself fails on
 }
 
 // DefaultProfile is the all-round profile.
@@ -260,8 +261,28 @@ func (g *G) errNew() *N {
 	return &N{K: KErrNew, Str: kind, Msg: fmt.Sprintf("r%d", g.t.Intn(1000))}
 }
 
+// natural draws an expression on which the interpreter itself fails (not a simulated callee):
+// an unbound name, a missing property, an integer division by zero.
+func (g *G) natural() *N {
+	switch g.t.Intn(4) {
+	case 0:
+		nm := g.name("undef")
+		return &N{K: KNat, Names: []string{nm}, Str: "NameErr", Msg: "name `" + nm + "` is not defined"}
+	case 1:
+		nm := g.name("nosuch")
+		return &N{K: KNat, Names: []string{fmt.Sprintf("%d.%s", g.t.Intn(10), nm)}, Str: "NoPropErr", Msg: "property `" + nm + "` is not defined."}
+	case 2:
+		return &N{K: KNat, Names: []string{fmt.Sprintf("%d // 0", g.t.Intn(10))}, Str: "ZeroDivisionErr", Msg: "cannot be divided by 0"}
+	default:
+		return &N{K: KNat, Names: []string{fmt.Sprintf("%d %% 0", 1+g.t.Intn(9))}, Str: "ZeroDivisionErr", Msg: "cannot be divided by 0"}
+	}
+}
+
 func (g *G) leafInt(role string) *N {
 	g.budget--
+	if g.p.Natural && g.noFault == 0 && g.t.Chance(1, 40) {
+		return g.natural()
+	}
 	switch g.t.Pick(6, 1, 1) {
 	case 0:
 		return g.slot("id", role)
